@@ -64,8 +64,21 @@ class Tree:
         rng = self.rng
         if active:
             return
-        k = rng.randrange(5)
-        if k == 0:
+        k = rng.randrange(9)
+        if k == 5:
+            self.lines.append((rng.choice(['this isn\'t "closed\n', 'char *s = "abc;\n', 'x = \'"\';\n', '#error don\'t say "this\n']), False))
+        elif k == 6:
+            self.lines.append((rng.choice(['#pragma once\n', '#warning nothing\n', '#line 3\n', '#ident "x"\n']), False))
+        elif k == 7:
+            # a whole nested group whose directives lack their expressions
+            self.lines.append(('#if\n', False))
+            self.lines.append(('char never%d;\n' % self.n, False))
+            if rng.random() < 0.5:
+                self.lines.append(('#elif\n', False))
+            self.lines.append(('#endif\n', False))
+        elif k == 8:
+            self.lines.append(('#define E%d\n#if E%d\n#endif\n' % (self.n, self.n), False))
+        elif k == 0:
             self.lines.append(('#define m%d broken\n' % (self.n + 1), False))      # would rename the next marker
         elif k == 1 and self.macros:
             self.lines.append(('#undef %s\n' % rng.choice(list(self.macros.keys())), False))
@@ -154,6 +167,13 @@ def gen_tree_case(rng, cid, maxdepth):
 KNOWN_WITNESSES = {
     'if_two': ('#if 2\nchar yes;\n#else\nchar no;\n#endif\n', [], 'char yes;\n'),
     'eq_values': ('#if V == 3\nchar yes;\n#else\nchar no;\n#endif\n', [('V', '2')], 'char no;\n'),
+    # text and directives of groups that are not selected have no effect at all (repaired 4807eff)
+    'skipped_quote': ('#if 0\nthis isn\'t "closed\n#endif\nchar ok;\n', [], 'char ok;\n'),
+    'skipped_error_quote': ('#ifdef NOPE\n#error don\'t say "this\n#else\nchar ok;\n#endif\n', [], 'char ok;\n'),
+    'skipped_pragma': ('#if 0\n#pragma once\n#warning x\n#endif\nchar ok;\n', [], 'char ok;\n'),
+    'skipped_if_empty': ('#define E\n#if 0\n#if E\nchar a;\n#elif\nchar b;\n#endif\n#endif\nchar ok;\n', [], 'char ok;\n'),
+    'taken_elif_empty': ('#if 1\nchar ok;\n#elif\nchar no;\n#endif\n', [], 'char ok;\n'),
+    'skipped_quote_then_else': ('#if 0\nx = "\n#else\nchar ok;\n#endif\n', [], 'char ok;\n'),
 }
 
 
